@@ -7,6 +7,8 @@ pub use yata::core::{PeriodType, ValueType};
 use std::path::PathBuf;
 
 pub mod alpha;
+pub mod subj;
+pub mod mvr;
 
 pub struct ReplayReq {
 	pub system: String,
@@ -96,7 +98,11 @@ impl H {
 			}
 			return None;
 		}
-		Some(self.run.explore(sys, lim, dfs))
+		let rep = self.run.explore(sys, lim, dfs);
+		if std::env::var("VERIF_VERBOSE").is_ok() {
+			eprintln!("  {:<50} {:>10} states {:>10} trans {:>6} vio {:>7.2}s {}", rep.system, rep.states, rep.transitions, rep.violations_total, rep.wall_s, rep.cap_hit.clone().unwrap_or_default());
+		}
+		Some(rep)
 	}
 
 	/// total-enumeration block; `f` re-checks one case given its textual form (replay)
